@@ -438,6 +438,353 @@ fn rnsp(out: &mut Out, r: &mut Rng, thorough: bool) {
     } }
 }
 
+// ------------------------------------------------------------------ CKKS paths of the coefficient-packing helpers
+//
+// Verdict lines only (the oracle is real-valued): `mmc_e2e` / `cvc_e2e` run `encode_inputs_ckks`, `encode_weights_ckks`, real encryption,
+// `matmul(_reverse)` / `conv2d(_reverse)`, optionally `pack_outputs` (LWE packing), optionally `rescale_to_next`, optionally the bias through
+// `encode_outputs_ckks` + `add_plain`, optionally the selected-terms transport (`output_terms` + `serialize_terms`; the full serialisation for
+// packed outputs), and `decrypt_outputs_ckks`; the result must equal the f64 matrix product / valid cross-correlation (+ bias) within the
+// WORST-CASE bound derived below.  `mmc_outputs_roundtrip` / `cvc_outputs_roundtrip`: decode(encrypt(encode_outputs_ckks(y))) = y within the
+// fresh-encryption bound.  `mm_input_terms`: the positions `MatmulHelper::input_terms` lists are exactly the positions of the encoded input
+// polynomials that carry input values (in row-major order of the block), every other coefficient is zero.
+//
+// Error bound (coefficient level; the helpers use the COEFFICIENT encoding `encode_f64_polynomial`, so no canonical-embedding factor):
+//   D = scale, N = degree, A_e / A_p = max |entry| of the encrypted / the plaintext operand, T = number of ciphertext x plaintext products
+//   summed into one output ciphertext (matmul: ceil(r / input_block); convolution: ceil(ci / input_channel_block)).
+//   * encoding: coefficient = round(D v): |round(D v) - D v| <= 1/2, |round(D v)| <= D A + 1/2;
+//   * fresh noise per coefficient: B = 21 for symmetric encryption (one error polynomial; the centred binomial sampler is clipped at
+//     8 + 8 + 5 = 21), B = 21 (2N + 1) for public-key encryption (e0 + u e_pk + e1 s, u and s ternary: C01 `fresh_noise_bound`);
+//   * one product: phase = (round(D a) + e) * round(D p) (negacyclic: every coefficient is a signed sum of N products), against D^2 (a * p):
+//       |error| <= N [ (1/2 + B)(D A_p + 1/2) + (D A_e) / 2 ];   T products:  E = T N [ (1/2 + B)(D A_p + 1/2) + D A_e / 2 ];
+//   * LWE packing: the pre-multiplication by ps^-1 and the field trace (log2 ps steps x -> x + KS(sigma(x))) reproduce the kept coefficients
+//     of the phase EXACTLY; each step adds one key-switch noise and doubles what was there: (ps - 1) bks per input ciphertext, ps of them
+//     are added into one packed ciphertext:  E += ps (ps - 1) bks,  bks = 21 N L ceil(q_max / p_special) + N + 2
+//     (sum over the L digits d_j < q_j of d_j * e_j, divided by the special prime, + rounding of the two output polynomials);
+//   * rescale by q_last (size-2 ciphertext): E <- E / q_last + (1 + N) / 2, scale <- D^2 / q_last;
+//   * bias: encoded at the ciphertext's scale: E += 1/2;
+//   * result error <= E / scale + fp,  fp = (K + 32) 2^-52 (K A_e A_p + S + 1) for the f64 reference sum of K products and the f64 decode.
+// Nothing is claimed when the scaled values do not fit the level's modulus (checked before the run: a `!NOTE`).
+
+pub struct CEnv { pub s: Setup, pub enc: CKKSEncoder, pub ak: GaloisKeys, pub qs: Vec<u64>, pub sb: i32 }
+
+pub fn cenv_from(n: usize, qs: &[u64], sb: i32) -> Option<CEnv> {
+    let s = make(SchemeType::CKKS, n, qs, 0, true, None)?;
+    let enc = CKKSEncoder::new(s.ctx.clone());
+    let ak = s.keygen.create_automorphism_keys(false);
+    Some(CEnv { s, enc, ak, qs: qs.to_vec(), sb })
+}
+pub fn cenv(r: &mut Rng, n: usize, bits: &[usize], sb: i32) -> Option<CEnv> { let qs = pick_primes(r, n, bits)?; cenv_from(n, &qs, sb) }
+
+/// real operands, |v| <= 8: 0 random multiples of 1/8, 1 all -8 / +8 alternating by position parity of a random bit, 2 zero, 3 a single
+/// non-zero entry, 4 ramp, 5 first entry only, 6 random non-dyadic reals
+pub fn fdata(r: &mut Rng, len: usize, kind: u64) -> Vec<f64> {
+    let dy = |r: &mut Rng| (r.below(129) as f64 - 64.0) / 8.0;
+    match kind {
+        1 => { let sg = if r.chance(1, 2) { 1.0 } else { -1.0 }; vec![8.0 * sg; len] }
+        2 => vec![0.0; len],
+        3 => { let mut v = vec![0.0; len]; if len > 0 { let p = r.below(len as u64) as usize; v[p] = (1 + r.below(64)) as f64 / 8.0 * if r.chance(1, 2) { 1.0 } else { -1.0 }; } v }
+        4 => (0..len).map(|i| (((i % 33) as f64) - 16.0) / 2.0).collect(),
+        5 => (0..len).map(|i| if i == 0 { (1 + r.below(64)) as f64 / 8.0 } else { 0.0 }).collect(),
+        6 => (0..len).map(|_| ((r.next() >> 11) as f64 / (1u64 << 53) as f64) * 16.0 - 8.0).collect(),
+        _ => (0..len).map(|_| dy(r)).collect(),
+    }
+}
+pub fn fkind_name(k: u64) -> &'static str { match k { 1 => "max", 2 => "zero", 3 => "sparse", 4 => "ramp", 5 => "first", 6 => "real", _ => "dyadic" } }
+fn ffl(v: &[f64]) -> String { if v.is_empty() { "-".into() } else { v.iter().map(|x| format!("{}", x)).collect::<Vec<_>>().join(",") } }
+fn pfl(s: &str) -> Vec<f64> { if s == "-" { vec![] } else { s.split(',').map(|x| x.parse().unwrap()).collect() } }
+fn amax(v: &[f64]) -> f64 { v.iter().fold(0.0, |a, x| a.max(x.abs())) }
+
+fn fref_matmul(x: &[f64], w: &[f64], s: &[f64], m: usize, r: usize, n: usize) -> Vec<f64> {
+    let mut y = vec![0.0; m * n];
+    for i in 0..m { for j in 0..n { let mut acc = 0.0; for k in 0..r { acc += x[i * r + k] * w[k * n + j]; } y[i * n + j] = acc + if s.is_empty() { 0.0 } else { s[i * n + j] }; } }
+    y
+}
+fn fref_conv(x: &[f64], w: &[f64], s: &[f64], sh: &[usize; 7]) -> Vec<f64> {
+    let [b, ci, co, h, wd, kh, kw] = *sh; let oh = h - kh + 1; let ow = wd - kw + 1;
+    let mut y = vec![0.0; b * co * oh * ow];
+    for bi in 0..b { for oc in 0..co { for i in 0..oh { for j in 0..ow {
+        let oi = ((bi * co + oc) * oh + i) * ow + j; let mut acc = 0.0;
+        for ic in 0..ci { for ki in 0..kh { for kj in 0..kw { acc += x[((bi * ci + ic) * h + i + ki) * wd + j + kj] * w[((oc * ci + ic) * kh + ki) * kw + kj]; } } }
+        y[oi] = acc + if s.is_empty() { 0.0 } else { s[oi] };
+    } } } }
+    y
+}
+
+/// options of one CKKS end-to-end run: `dir` 0 = inputs encrypted (symmetric, seed expanded, serialised), 1 = weights encrypted (public key);
+/// `tr` transport of the result; `rescale` before the bias; `pidnone`: the bias is encoded with `parms_id = None` (as the crate's own test does);
+/// `lvl`: 0 = operands encoded with `parms_id = None` (first level), 1 = with `Some(second data level)` (everything then runs one level lower)
+#[derive(Clone, Copy)]
+pub struct COpt { pub dir: u64, pub tr: bool, pub rescale: bool, pub pidnone: bool, pub lvl: usize }
+
+/// the worst-case bound derived at the top of this section; `ps` = Some(pack slots) when LWE packing ran
+#[allow(clippy::too_many_arguments)]
+fn ckks_bound(e: &CEnv, o: &COpt, a_x: f64, a_w: f64, a_s: f64, bias: bool, t_prod: usize, k_terms: usize, ps: Option<usize>) -> (f64, f64) {
+    let nf = e.s.n as f64; let d = 2f64.powi(e.sb);
+    let (a_e, a_p, b) = if o.dir == 0 { (a_x, a_w, 21.0) } else { (a_w, a_x, 21.0 * (2.0 * nf + 1.0)) };
+    let mut err = t_prod as f64 * nf * ((0.5 + b) * (d * a_p + 0.5) + d * a_e / 2.0);
+    let data = &e.qs[..e.qs.len() - 1 - o.lvl];
+    if let Some(ps) = ps {
+        let qmax = *data.iter().max().unwrap() as f64; let p = *e.qs.last().unwrap() as f64;
+        let bks = 21.0 * nf * data.len() as f64 * (qmax / p).ceil() + nf + 2.0;
+        err += (ps * (ps - 1)) as f64 * bks;
+    }
+    let mut scale = d * d;
+    if o.rescale { let ql = *data.last().unwrap() as f64; err = err / ql + (1.0 + nf) / 2.0; scale = d * d / ql; }
+    if bias { err += 0.5; }
+    let fp = (k_terms as f64 + 32.0) * 2f64.powi(-52) * (k_terms as f64 * a_x * a_w + a_s + 1.0);
+    (err / scale + fp, scale)
+}
+/// do the scaled values fit the modulus the result is decrypted at?
+fn ckks_fits(e: &CEnv, o: &COpt, mag: f64) -> bool {
+    if o.lvl + 2 > e.qs.len() - 1 { return false; }
+    let data = &e.qs[..e.qs.len() - 1 - o.lvl];
+    let lq: f64 = data.iter().map(|&q| (q as f64).log2()).sum();
+    let top = mag.max(1.0).log2() + 2.0 * e.sb as f64 + 2.0;
+    // after a rescale: scale D^2 / q_last, modulus Q / q_last — the same margin
+    data.len() >= 2 && top < lq
+}
+
+/// every plaintext of an encoded set is at the requested level and scale
+fn plain_levels(e: &CEnv, p: &Plain2d, pid: Option<ParmsID>, scale: f64) {
+    let want = pid.unwrap_or(*e.s.ctx.first_parms_id());
+    for row in &p.data { for pt in &row.data {
+        assert!(*pt.parms_id() == want, "encoded plaintext is not at the requested level");
+        assert!(pt.scale().to_bits() == scale.to_bits(), "encoded plaintext does not carry the requested scale");
+    } }
+}
+fn ctransport(e: &CEnv, y: Cipher2d, terms: &[usize]) -> Cipher2d {
+    let mut bytes = vec![];
+    y.serialize_terms(&e.s.ctx, terms, &mut bytes).unwrap();
+    assert_eq!(bytes.len(), y.serialized_terms_size(&e.s.ctx, terms.len()), "serialized_terms_size");
+    Cipher2d::deserialize_terms(&e.s.ctx, terms, &mut bytes.as_slice()).unwrap()
+}
+fn croundtrip(e: &CEnv, y: Cipher2d) -> Cipher2d {
+    let mut bytes = vec![];
+    y.serialize(&e.s.ctx, &mut bytes).unwrap();
+    assert_eq!(bytes.len(), y.serialized_size(&e.s.ctx), "serialized_size");
+    Cipher2d::deserialize(&e.s.ctx, &mut bytes.as_slice()).unwrap()
+}
+/// rescale (optional), bias (optional) — shared tail of both helpers; returns the bias plaintext set's scale / level choice
+fn ctail<F: Fn(Option<ParmsID>, f64) -> Plain2d>(e: &CEnv, o: &COpt, y: &mut Cipher2d, bias: bool, enc_out: F) {
+    let d = 2f64.powi(e.sb);
+    let mut sc = d * d;
+    if o.rescale { let ql = e.qs[e.qs.len() - 2 - o.lvl]; sc = d * d / ql as f64; y.rescale_to_next_inplace(&e.s.evaluator); }
+    if bias {
+        let pid = if o.pidnone { None } else { Some(*y.data[0].data[0].parms_id()) };
+        let se = enc_out(pid, sc);
+        plain_levels(e, &se, pid, sc);
+        y.add_plain_inplace(&e.s.evaluator, &se);
+    }
+}
+
+#[allow(clippy::too_many_arguments)]
+pub fn cheetah_ckks_e2e(e: &CEnv, m: usize, r: usize, n: usize, obj: u64, pack: bool, o: &COpt, x: &[f64], w: &[f64], s: &[f64]) -> Vec<f64> {
+    let d = 2f64.powi(e.sb);
+    let h = MatmulHelper::new(m, r, n, e.s.n, obj_of(obj), pack);
+    let pid = if o.lvl == 0 { None } else { Some(e.s.levels()[o.lvl]) };
+    let xe = h.encode_inputs_ckks(&e.enc, x, pid, d);
+    let we = h.encode_weights_ckks(&e.enc, w, pid, d);
+    plain_levels(e, &xe, pid, d); plain_levels(e, &we, pid, d);
+    let mut y = if o.dir == 0 {
+        let xc = croundtrip(e, xe.encrypt_symmetric(&e.s.encryptor).expand_seed(&e.s.ctx));
+        h.matmul(&e.s.evaluator, &xc, &we)
+    } else {
+        let wc = we.encrypt(&e.s.encryptor);
+        h.matmul_reverse(&e.s.evaluator, &xe, &wc)
+    };
+    if pack { y = h.pack_outputs(&e.s.evaluator, &e.ak, &y); }
+    ctail(e, o, &mut y, !s.is_empty(), |pid, sc| h.encode_outputs_ckks(&e.enc, s, pid, sc));
+    if o.tr { y = if pack { croundtrip(e, y) } else { ctransport(e, y, &h.output_terms()) }; }
+    h.decrypt_outputs_ckks(&e.enc, &e.s.decryptor, &y)
+}
+
+pub fn conv_ckks_e2e(e: &CEnv, sh: &[usize; 7], obj: u64, o: &COpt, x: &[f64], w: &[f64], s: &[f64]) -> Vec<f64> {
+    let d = 2f64.powi(e.sb);
+    let [b, ci, co, hh, ww, kh, kw] = *sh;
+    let h = Conv2dHelper::new(b, ci, co, hh, ww, kh, kw, e.s.n, obj_of(obj));
+    let pid = if o.lvl == 0 { None } else { Some(e.s.levels()[o.lvl]) };
+    let xe = h.encode_inputs_ckks(&e.enc, x, pid, d);
+    let we = h.encode_weights_ckks(&e.enc, w, pid, d);
+    plain_levels(e, &xe, pid, d); plain_levels(e, &we, pid, d);
+    let mut y = if o.dir == 0 {
+        let xc = croundtrip(e, xe.encrypt_symmetric(&e.s.encryptor).expand_seed(&e.s.ctx));
+        h.conv2d(&e.s.evaluator, &xc, &we)
+    } else {
+        let wc = we.encrypt(&e.s.encryptor);
+        h.conv2d_reverse(&e.s.evaluator, &xe, &wc)
+    };
+    ctail(e, o, &mut y, !s.is_empty(), |pid, sc| h.encode_outputs_ckks(&e.enc, s, pid, sc));
+    if o.tr { y = ctransport(e, y, &h.output_terms()); }
+    h.decrypt_outputs_ckks(&e.enc, &e.s.decryptor, &y)
+}
+
+/// real-valued verdict: every entry within `bound`; a panic on these legal inputs is a failure as well
+fn fverdict(out: &mut Out, lhs: &str, class: &str, got: Result<Vec<f64>, String>, want: &[f64], bound: f64) {
+    match got {
+        Err(m) => out.raw(&format!("!FAIL {} :: panicked on legal input: {} # {}", lhs, m.replace('\n', " "), class)),
+        Ok(g) => {
+            if g.len() != want.len() { out.raw(&format!("!FAIL {} :: {} values returned, {} expected # {}", lhs, g.len(), want.len(), class)); return; }
+            let mut worst = (0usize, 0.0f64);
+            for i in 0..g.len() { let dlt = (g[i] - want[i]).abs(); if !(dlt <= worst.1) { worst = (i, dlt); } }
+            if g.is_empty() || worst.1 <= bound { out.raw(&format!("!OK {} :: err={:.3e} bound={:.3e} # {}", lhs, worst.1, bound, class)); }
+            else { out.raw(&format!("!FAIL {} :: entry {} observed {} expected {} (difference {:e}), worst-case bound {:e} # {}", lhs, worst.0, g[worst.0], want[worst.0], worst.1, bound, class)); }
+        }
+    }
+}
+fn fguard<F: FnOnce() -> Vec<f64>>(f: F) -> Result<Vec<f64>, String> {
+    std::panic::catch_unwind(std::panic::AssertUnwindSafe(f)).map_err(|_| LAST_PANIC.with(|p| p.borrow().clone()))
+}
+fn chead(e: &CEnv) -> String { format!("{} {} {}", e.s.n, fl(&e.qs), e.sb) }
+fn copt_str(o: &COpt) -> String { format!("{} {} {} {} {}", o.dir, o.tr as u8, o.rescale as u8, o.pidnone as u8, o.lvl) }
+
+#[allow(clippy::too_many_arguments)]
+fn mmc_case(out: &mut Out, e: &CEnv, m: usize, rr: usize, n: usize, obj: u64, pack: bool, o: &COpt, x: &[f64], w: &[f64], s: &[f64], cls: &str) {
+    let lhs = format!("mmc_e2e {} {} {} {} {} {} {} {} {} {}", chead(e), m, rr, n, obj, pack as u8, copt_str(o), ffl(x), ffl(w), ffl(s));
+    let bl = match std::panic::catch_unwind(|| mm_blocks_of(&MatmulHelper::new(m, rr, n, e.s.n, obj_of(obj), pack))) { Ok(b) => b, Err(_) => { out.raw(&format!("!NOTE mmc_e2e {} {} {} {} {} {}: constructor refused", e.s.n, m, rr, n, obj, pack as u8)); return; } };
+    if bl[0] == 0 { out.raw(&format!("!NOTE mmc_e2e {} {} {} {} {} {}: no blocking found", e.s.n, m, rr, n, obj, pack as u8)); return; }
+    let (ax, aw, a_s) = (amax(x), amax(w), amax(s));
+    if !ckks_fits(e, o, rr as f64 * ax * aw + a_s) { out.raw("!NOTE mmc_e2e skipped: scaled values do not fit the level"); return; }
+    let (bound, _) = ckks_bound(e, o, ax, aw, a_s, !s.is_empty(), (rr + bl[1] - 1) / bl[1], rr, if pack { Some(bl[1]) } else { None });
+    let want = fref_matmul(x, w, s, m, rr, n);
+    let got = fguard(|| cheetah_ckks_e2e(e, m, rr, n, obj, pack, o, x, w, s));
+    fverdict(out, &lhs, cls, got, &want, bound);
+}
+
+fn cvc_case(out: &mut Out, e: &CEnv, sh: &[usize; 7], obj: u64, o: &COpt, x: &[f64], w: &[f64], s: &[f64], cls: &str) {
+    let [b, ci, co, hh, ww, kh, kw] = *sh;
+    let lhs = format!("cvc_e2e {} {} {} {} {} {} {} {} {} {} {} {} {}", chead(e), b, ci, co, hh, ww, kh, kw, obj, copt_str(o), ffl(x), ffl(w), ffl(s));
+    let bl = match std::panic::catch_unwind(|| Conv2dHelper::new(b, ci, co, hh, ww, kh, kw, e.s.n, obj_of(obj)).verif_blocks()) { Ok(b) => b, Err(_) => { out.raw("!NOTE cvc_e2e: constructor refused"); return; } };
+    if bl[0] == 0 || bl[3] == 0 { out.raw(&format!("!NOTE cvc_e2e {} {:?} {}: no blocking found", e.s.n, sh, obj)); return; }
+    let (ax, aw, a_s) = (amax(x), amax(w), amax(s));
+    let k = ci * kh * kw;
+    if !ckks_fits(e, o, k as f64 * ax * aw + a_s) { out.raw("!NOTE cvc_e2e skipped: scaled values do not fit the level"); return; }
+    let (bound, _) = ckks_bound(e, o, ax, aw, a_s, !s.is_empty(), (ci + bl[3] - 1) / bl[3], k, None);
+    let want = fref_conv(x, w, s, sh);
+    let got = fguard(|| conv_ckks_e2e(e, sh, obj, o, x, w, s));
+    fverdict(out, &lhs, cls, got, &want, bound);
+}
+
+/// `input_terms`: for every block polynomial (bi, bj) of `encode_inputs_*`, the coefficient at `input_terms()[i * input_block + j]` is the input
+/// entry (bi*bb + i, bj*ib + j) (zero outside the matrix) and every coefficient at a position NOT listed is zero — checked on the BFV
+/// plaintexts (exact) and, through `decode_polynomial`, on the CKKS plaintexts (within the encoder's rounding 1/2 / scale + one ulp).
+#[allow(deprecated)]
+fn input_terms_case(out: &mut Out, r: &mut Rng, e: &Env, ce: &CEnv, m: usize, rr: usize, n: usize, obj: u64, pack: bool) {
+    let nn = e.s.n; let t = e.s.t;
+    let lhs = format!("mm_input_terms {} {} {} {} {} {} {}", nn, m, rr, n, obj, pack as u8, r.next() & 0xffff);
+    let cls = format!("input-terms-n{}{}", nn, if pack { "p" } else { "" });
+    let res = std::panic::catch_unwind(std::panic::AssertUnwindSafe(|| -> Result<(), String> {
+        let h = MatmulHelper::new(m, rr, n, nn, obj_of(obj), pack);
+        let bl = mm_blocks_of(&h); let (bb, ib) = (bl[0], bl[1]);
+        if bb == 0 { return Ok(()); }
+        let terms = h.input_terms();
+        if terms.len() != bb * ib { return Err(format!("{} terms, batch_block x input_block = {}", terms.len(), bb * ib)); }
+        let mut seen = vec![false; nn];
+        for &p in &terms { if p >= nn { return Err(format!("term {} outside the polynomial", p)); } if seen[p] { return Err(format!("term {} listed twice", p)); } seen[p] = true; }
+        // every entry non-zero, so that a value landing outside the listed positions is visible
+        let x: Vec<u64> = (0..m * rr).map(|_| 1 + r.below(t - 1)).collect();
+        let xf: Vec<f64> = (0..m * rr).map(|_| (1 + r.below(64)) as f64 / 8.0 * if r.chance(1, 2) { 1.0 } else { -1.0 }).collect();
+        let pe = h.encode_inputs_bfv(&e.enc, &x);
+        let d = 2f64.powi(ce.sb);
+        let pc = h.encode_inputs_ckks(&ce.enc, &xf, None, d);
+        let (rows, cols) = ((m + bb - 1) / bb, (rr + ib - 1) / ib);
+        if pe.data.len() != rows || pc.data.len() != rows { return Err(format!("{} / {} block rows, expected {}", pe.data.len(), pc.data.len(), rows)); }
+        for bi in 0..rows {
+            if pe.data[bi].data.len() != cols || pc.data[bi].data.len() != cols { return Err(format!("row {}: {} / {} polynomials, expected {}", bi, pe.data[bi].data.len(), pc.data[bi].data.len(), cols)); }
+            for bj in 0..cols {
+                let mut co = pe.data[bi].data[bj].data().clone(); co.resize(nn, 0);
+                let cf = ce.enc.decode_polynomial_new(&pc.data[bi].data[bj]);
+                let mut wantu = vec![0u64; nn]; let mut wantf = vec![0.0f64; nn];
+                for i in 0..bb { for j in 0..ib {
+                    let (gi, gj) = (bi * bb + i, bj * ib + j);
+                    if gi < m && gj < rr { wantu[terms[i * ib + j]] = x[gi * rr + gj]; wantf[terms[i * ib + j]] = xf[gi * rr + gj]; }
+                } }
+                if co != wantu { return Err(format!("bfv block ({},{}): polynomial {} expected {} (x = {})", bi, bj, fl(&co), fl(&wantu), fl(&x))); }
+                for p in 0..nn { if !((cf[p] - wantf[p]).abs() <= 0.5 / d + 1e-12) { return Err(format!("ckks block ({},{}): coefficient {} is {} expected {} (x = {})", bi, bj, p, cf[p], wantf[p], ffl(&xf))); } }
+            }
+        }
+        Ok(())
+    }));
+    match res {
+        Ok(Ok(())) => out.raw(&format!("!OK {} # {}", lhs, cls)),
+        Ok(Err(m)) => out.raw(&format!("!FAIL {} :: {} # {}", lhs, m, cls)),
+        Err(_) => { let m = LAST_PANIC.with(|p| p.borrow().clone()); out.raw(&format!("!FAIL {} :: panicked: {} # {}", lhs, m.replace('\n', " "), cls)); }
+    }
+}
+
+fn ckks_part(out: &mut Out, r: &mut Rng, thorough: bool) {
+    // (degree, coefficient primes incl. the special one, log2 scale): two data primes (decode after rescale: one word) and three (two words)
+    let plan: &[(usize, &[usize], i32)] = &[(16, &[58, 34, 59], 34), (32, &[58, 34, 59], 34), (64, &[50, 40, 36, 60], 36)];
+    let benvs: Vec<Option<Env>> = plan.iter().map(|&(n, _, _)| env(r, n, 20)).collect();
+    for (pi, &(n, bits, sb)) in plan.iter().enumerate() {
+        let e = match cenv(r, n, bits, sb) { Some(e) => e, None => { out.raw(&format!("!FAIL env ckks n={} :: context not available # setup", n)); continue; } };
+        // ---- matrix products
+        let mut shapes = dims(if thorough { 4 } else { 3 });
+        shapes.extend_from_slice(&[(5, 7, 3), (4, 40, 5), (17, 9, 11), (1, 33, 1), (33, 1, 2), (2, 65, 3), (7, 7, 7), (1, 1, 70), (12, 20, 12), (n, n + 1, 2), (3, 2 * n + 1, n + 1)]);
+        let mut idx = 0u64;
+        for &(m, rr, nn) in &shapes { for obj in 0..3u64 { for pack in [false, true] {
+            idx += 1;
+            let ext = [1u64, 6, 3, 4, 2, 5][(idx % 6) as usize];
+            for &kind in &[0u64, ext] {
+                let x = fdata(r, m * rr, kind);
+                let wk = if (kind == 3 || kind == 5 || kind == 2) && r.chance(1, 2) { 0 } else { kind };
+                let w = fdata(r, rr * nn, wk);
+                let s = if r.chance(1, 2) { vec![] } else { fdata(r, m * nn, if kind == 1 { 1 } else if kind == 6 { 6 } else { 0 }) };
+                for dir in 0..2u64 {
+                    if kind != 0 && ((dir == 1) != (obj == 1)) && r.chance(1, 2) { continue; }
+                    let rescale = r.chance(1, 2);
+                    let lvl = (bits.len() >= 4 && r.chance(1, 3)) as usize;
+                    let o = COpt { dir, tr: r.chance(1, 2), rescale, pidnone: rescale && lvl == 0 && r.chance(1, 3), lvl };
+                    mmc_case(out, &e, m, rr, nn, obj, pack, &o, &x, &w, &s, &format!("ckks-{}-n{}{}{}{}", fkind_name(kind), n, if pack { "p" } else { "" }, if rescale { "r" } else { "" }, if lvl == 1 { "-l1" } else { "" }));
+                }
+            }
+            // output re-encoding is the inverse of output decoding: fresh public-key encryption of the encoded outputs, bound (1/2 + 21 (2N + 1)) / D
+            if idx % 2 == 0 {
+                let yv = fdata(r, m * nn, [0u64, 6, 1, 3][(idx / 2 % 4) as usize]);
+                let d = 2f64.powi(sb); let tr = r.chance(1, 2);
+                let lv = r.below(e.s.levels().len() as u64) as usize; let pid = if lv == 0 && r.chance(1, 2) { None } else { Some(e.s.levels()[lv]) };
+                let lhs = format!("mmc_outputs_roundtrip {} {} {} {} {} {} {} {}{} {}", chead(&e), m, rr, nn, obj, pack as u8, tr as u8, lv, if pid.is_none() { "n" } else { "" }, ffl(&yv));
+                let got = fguard(|| { let h = MatmulHelper::new(m, rr, nn, n, obj_of(obj), pack); let pe = h.encode_outputs_ckks(&e.enc, &yv, pid, d); plain_levels(&e, &pe, pid, d); let mut ct = pe.encrypt(&e.s.encryptor);
+                    if tr { ct = if pack { croundtrip(&e, ct) } else { ctransport(&e, ct, &h.output_terms()) }; }
+                    h.decrypt_outputs_ckks(&e.enc, &e.s.decryptor, &ct) });
+                fverdict(out, &lhs, &format!("ckks-ortrip-n{}{}", n, if pack { "p" } else { "" }), got, &yv, (0.5 + 21.0 * (2.0 * n as f64 + 1.0)) / d + 40.0 * 2f64.powi(-52) * 9.0);
+            }
+            if let Some(be) = &benvs[pi] { if idx % 2 == 1 || m * rr * nn > 27 { input_terms_case(out, r, be, &e, m, rr, nn, obj, pack); } }
+        } } }
+        // ---- convolutions (incl. images split along height / width, more channels than fit)
+        let mut cshapes: Vec<[usize; 7]> = vec![];
+        for b in 1..=2usize { for ci in 1..=2usize { for co in 1..=2usize { for (hh, ww, kh, kw) in [(1usize, 1usize, 1usize, 1usize), (3, 3, 2, 2), (4, 5, 3, 1), (5, 4, 1, 3), (6, 6, 3, 3)] { cshapes.push([b, ci, co, hh, ww, kh, kw]); } } } }
+        cshapes.extend_from_slice(&[[1, 1, 1, 40, 4, 3, 3], [1, 1, 1, 4, 40, 3, 3], [1, 2, 1, 33, 3, 2, 2], [2, 1, 2, 17, 5, 3, 1], [1, 3, 2, 20, 9, 3, 3], [1, 1, 1, 65, 1, 2, 1], [1, 5, 7, 6, 6, 3, 3], [3, 2, 2, 12, 12, 3, 3], [1, 1, 4, 16, 16, 5, 5], [2, 9, 1, 8, 8, 2, 3]]);
+        if n < 32 { cshapes.retain(|sh| sh[5] * sh[6] <= n); }
+        let mut idx = 0u64;
+        for sh in &cshapes { for obj in 0..3u64 {
+            idx += 1;
+            let [b, ci, co, hh, ww, kh, kw] = *sh; let (oh, ow) = (hh - kh + 1, ww - kw + 1);
+            let ext = [1u64, 6, 3, 4, 2, 5][(idx % 6) as usize];
+            for &kind in &[0u64, ext] {
+                let x = fdata(r, b * ci * hh * ww, kind);
+                let wk = if (kind == 3 || kind == 5 || kind == 2) && r.chance(1, 2) { 0 } else { kind };
+                let w = fdata(r, co * ci * kh * kw, wk);
+                let s = if r.chance(1, 2) { vec![] } else { fdata(r, b * co * oh * ow, if kind == 6 { 6 } else { 0 }) };
+                let dir = if kind == 0 { (obj == 1) as u64 } else { r.below(2) };
+                let rescale = r.chance(1, 2);
+                let lvl = (bits.len() >= 4 && r.chance(1, 3)) as usize;
+                    let o = COpt { dir, tr: r.chance(1, 2), rescale, pidnone: rescale && lvl == 0 && r.chance(1, 3), lvl };
+                cvc_case(out, &e, sh, obj, &o, &x, &w, &s, &format!("ckks-conv-{}-n{}{}{}", fkind_name(kind), n, if rescale { "r" } else { "" }, if lvl == 1 { "-l1" } else { "" }));
+            }
+            if idx % 3 == 0 {
+                let yv = fdata(r, b * co * oh * ow, [0u64, 6, 1, 3][(idx / 3 % 4) as usize]);
+                let d = 2f64.powi(sb); let tr = r.chance(1, 2);
+                let lv = r.below(e.s.levels().len() as u64) as usize; let pid = if lv == 0 && r.chance(1, 2) { None } else { Some(e.s.levels()[lv]) };
+                let lhs = format!("cvc_outputs_roundtrip {} {} {} {} {} {} {} {} {} {} {}{} {}", chead(&e), b, ci, co, hh, ww, kh, kw, obj, tr as u8, lv, if pid.is_none() { "n" } else { "" }, ffl(&yv));
+                let got = fguard(|| { let h = Conv2dHelper::new(b, ci, co, hh, ww, kh, kw, n, obj_of(obj)); let pe = h.encode_outputs_ckks(&e.enc, &yv, pid, d); plain_levels(&e, &pe, pid, d); let mut ct = pe.encrypt(&e.s.encryptor);
+                    if tr { ct = ctransport(&e, ct, &h.output_terms()); }
+                    h.decrypt_outputs_ckks(&e.enc, &e.s.decryptor, &ct) });
+                fverdict(out, &lhs, &format!("ckks-conv-ortrip-n{}", n), got, &yv, (0.5 + 21.0 * (2.0 * n as f64 + 1.0)) / d + 40.0 * 2f64.powi(-52) * 9.0);
+            }
+        } }
+    }
+}
+
 // ------------------------------------------------------------------ entry point
 
 fn dims(hi: usize) -> Vec<(usize, usize, usize)> { let mut v = vec![]; for m in 1..=hi { for r in 1..=hi { for n in 1..=hi { v.push((m, r, n)); } } } v }
@@ -468,6 +815,19 @@ fn replay_case(out: &mut Out, r: &mut Rng, case: &str) {
             let head = format!("{} {} {} {} {} {} {} {} {} {}", n, t, tk[3], tk[4], tk[5], tk[6], tk[7], tk[8], tk[9], tk[10]);
             out.case(&format!("cv_run {} {} {} {} {} {}", head, tk[11], tk[12], fl(&x), fl(&w), fl(&s)), "replay",
                 || fl(&conv_e2e(&e, &sh, tk[10].parse().unwrap(), tk[11].parse().unwrap(), tk[12] == "1", &x, &w, &s)));
+        }
+        "mmc_e2e" if tk.len() == 17 => {
+            let qs: Vec<u64> = pl(tk[2]);
+            let e = match cenv_from(pu(tk[1]), &qs, tk[3].parse().unwrap()) { Some(e) => e, None => { out.raw("!NOTE replay: context not available"); return; } };
+            let o = COpt { dir: tk[9].parse().unwrap(), tr: tk[10] == "1", rescale: tk[11] == "1", pidnone: tk[12] == "1", lvl: pu(tk[13]) };
+            mmc_case(out, &e, pu(tk[4]), pu(tk[5]), pu(tk[6]), tk[7].parse().unwrap(), tk[8] == "1", &o, &pfl(tk[14]), &pfl(tk[15]), &pfl(tk[16]), "replay");
+        }
+        "cvc_e2e" if tk.len() == 20 => {
+            let qs: Vec<u64> = pl(tk[2]);
+            let e = match cenv_from(pu(tk[1]), &qs, tk[3].parse().unwrap()) { Some(e) => e, None => { out.raw("!NOTE replay: context not available"); return; } };
+            let sh = [pu(tk[4]), pu(tk[5]), pu(tk[6]), pu(tk[7]), pu(tk[8]), pu(tk[9]), pu(tk[10])];
+            let o = COpt { dir: tk[12].parse().unwrap(), tr: tk[13] == "1", rescale: tk[14] == "1", pidnone: tk[15] == "1", lvl: pu(tk[16]) };
+            cvc_case(out, &e, &sh, tk[11].parse().unwrap(), &o, &pfl(tk[17]), &pfl(tk[18]), &pfl(tk[19]), "replay");
         }
         _ => out.raw("!NOTE replay: only mm_run / cv_run lines carry their operands; verdict lines are regenerated from the seed by re-running the check"),
     }
@@ -549,4 +909,5 @@ pub fn run(out: &mut Out, thorough: bool, seed: u64, extra: &[String]) {
         }
     }
     if want("rnsp") { rnsp(out, &mut r, thorough); }
+    if want("ckks") { ckks_part(out, &mut r, thorough); }
 }
